@@ -15,6 +15,9 @@ Case kinds
           with extra rows, the mapping left in the manifest, the products declared with version dummy;
           the reader alone with overwrite on and off
   print   str(Mapping) of a table, and the reader on that text
+  tlops   (c18ops.py) a sequence of addProduct / write (flavor override, noaction) / read on ONE
+          TaggedProductList, the object and the files observed after every step
+  mops    (c18ops.py) the same on ONE Manifest: addDependency / write / read / reverse
 """
 import re
 import json
@@ -23,6 +26,8 @@ import shutil
 
 import common
 from common import enc, dec, enc_list, dec_list
+
+import c18ops as OPS
 
 WHO, TIME, VER = "verif", "T", "V"
 
@@ -483,6 +488,10 @@ def impl_batch(cases, tmp):
                             "apply": [list(mp.apply(d["product"], d["version"], c["fl"])) for d in c["deps"]]})
             elif k == "rfile":
                 out.append(impl_rfile(c, S, eups, hooks, Stub, tmp, devnull, wr))
+            elif k == "tlops":
+                out.append(OPS.impl_tlops(c, S, tmp, devnull))
+            elif k == "mops":
+                out.append(OPS.impl_mops(c, S, Stub, tmp, devnull))
             elif k == "print":
                 mp = S.Mapping()
                 for p, v, q, w, f in c["rows"]:
@@ -606,6 +615,8 @@ B = lambda b: "1" if b else "0"  # noqa
 def model_lines(c, impl):
     """the model queries for one case (the read queries take the text the implementation wrote)"""
     k = c["kind"]
+    if k in ("tlops", "mops"):
+        return OPS.model_lines(c, impl)
     if k == "mrt":
         ls = ["\t".join(["mwrite", "1", B(c["noopt"]), enc_opt(c["fa"]), enc(c["efl"]), enc(WHO), enc(TIME), enc(VER),
                          enc_opt(c["product"]), enc_opt(c["version"]), enc_deps(c["deps"])]),
@@ -666,13 +677,15 @@ def dec_manifest(f):
     return {"product": dec_opt(f[1]), "version": dec_opt(f[2]), "deps": dec_deps(f[3] if len(f) > 3 else "")}
 
 
-def model_result(c, outs):
+def model_result(c, outs, impl=None):
     """decode the answers to model_lines into the shape of the implementation's result"""
     k = c["kind"]
     fs = [o.split("\t") for o in outs]
     for f in fs:
         if f[0] == "DRIVER-ERROR":
             return {"crash": "model driver: " + dec(f[1])}
+    if k in ("tlops", "mops"):
+        return OPS.model_result(c, fs, impl or {})
     res = {}
     if k == "mrt":
         res["text"] = dec(fs[0][1])
@@ -1123,6 +1136,8 @@ def shape(c):
         return "rfile/mode=%s/files=%d/extra=%d" % (c["mode"], len(c["texts"]), min(len(c["extra"]), 1))
     if k == "print":
         return "print/%s/rows=%d" % ("wf" if wf_print(c) else "odd", min(len(c["rows"]), 5))
+    if k in ("tlops", "mops"):
+        return OPS.shape(c)
     return k
 
 
@@ -1152,13 +1167,15 @@ def evaluate(ctx, cases, count=True):
     outs = ctx.model(lines)
     results = []
     for c, i, (a, b) in zip(cases, ires, spans):
-        m = model_result(c, outs[a:b])
+        m = model_result(c, outs[a:b], i)
         k = c["kind"]
         if count:
             nt = None
             if (k == "mrt" and c["deps"]) or (k == "tl" and c["entries"]) or (k == "remap" and c["rows"] and c["deps"]) \
                     or k in ("mread", "tlread") or (k == "merge" and c["rows"] and c["other"]) \
-                    or (k == "rfile" and any(t and t.strip() for t in c["texts"])) or (k == "print" and c["rows"]):
+                    or (k == "rfile" and any(t and t.strip() for t in c["texts"])) or (k == "print" and c["rows"]) \
+                    or (k in ("tlops", "mops") and any(o[0] == "add" for o in c["ops"])
+                        and any(o[0] == "write" for o in c["ops"])):
                 nt = json.dumps(c, sort_keys=True)
             ctx.count(1, key=shape(c), nontrivial=nt)
         if "crash" in i or "crash" in m:
@@ -1180,6 +1197,14 @@ def evaluate(ctx, cases, count=True):
             i_cmp = {kk: v for kk, v in i.items() if kk != "same"}
             if mi != i_cmp:
                 ctx.disagree(c, mi, i_cmp, where=k)
+        elif k in ("tlops", "mops"):
+            for n, (ms, st) in enumerate(zip(mi["steps"], i["steps"])):
+                if ms != st:
+                    ctx.disagree(dict(c, ops=c["ops"][:n + 1]), ms, st, where="%s step %d (%s)" % (k, n, c["ops"][n][0]))
+                    break
+            else:
+                if len(mi["steps"]) != len(i["steps"]):
+                    ctx.disagree(c, len(mi["steps"]), len(i["steps"]), where=k + ": number of steps run")
         else:
             if mi != i and not (k in ("remap", "merge") and {kk: v for kk, v in i.items() if kk != "apply"} == mi):
                 ctx.disagree(c, mi, i, where=k)
@@ -1225,6 +1250,12 @@ def evaluate(ctx, cases, count=True):
                 ctx.fail(o[0], o[1], expected=o[2], observed=o[3], what=o[4])
             if count:
                 ctx.traces_validated += 1
+        elif k in ("tlops", "mops"):
+            o = OPS.oracle_tlops(c, i) if k == "tlops" else OPS.oracle_mops(c, i)
+            if o is not None:
+                ctx.fail(o[0], o[1], expected=o[2], observed=o[3], what=o[4])
+            if count:
+                ctx.traces_validated += 1
         elif k == "print":
             if m["wf"] != wf_print(c):
                 ctx.disagree(c, m["wf"], wf_print(c), where="printable table: coq vs python")
@@ -1259,6 +1290,12 @@ def setup_ctx(ctx):
                 "noReinstall, fields with extra colons, fields starting with a colon, CR/LF/CRLF, odd white space) in "
                 "one or two customisation directories (one possibly without file), mode None/create/install/empty, "
                 "with and without extra rows, known dummy products; printed tables read back; "
+                "sequences of 2-12 operations on ONE TaggedProductList (addProduct, write to one of three files with "
+                "or without a flavor override, a quarter of the writes as noaction dry runs, read of a written or "
+                "missing file into the same object; styles free / writes only / override then plain) and on ONE "
+                "Manifest (addDependency, write with noOptional / flavor / noaction, read with setproduct / "
+                "shouldRecurse, reverse), the object and every file observed after every step, every written file "
+                "read back by fresh readers of up to four flavors; "
                 "a case is non-trivial when it has at least one entry (and one row); distinct = distinct case")
     ctx.trusted_base = common.COMMON_TRUSTED + [
         "modelled, not verified: python re (the two header patterns, non-space runs), str.split/strip/startswith/"
@@ -1296,6 +1333,10 @@ def run(ctx):
         cases.append(gen_rfile(rng))
     for _ in range(ctx.size(600, 10000)):
         cases.append(gen_print(rng))
+    for _ in range(ctx.size(2500, 40000)):
+        cases.append(OPS.gen_tlops(rng))
+    for _ in range(ctx.size(2000, 30000)):
+        cases.append(OPS.gen_mops(rng))
     for c in cases[:3]:
         ctx.sample(c)
     for i in range(0, len(cases), 5000):
